@@ -698,3 +698,8 @@ fn test_dontset_values() {
     assert!(msg.options.find_option(icmppkt::DNSSL).is_empty());
     assert!(msg.options.find_option(icmppkt::CAPTIVE_PORTAL).is_empty());
 }
+
+#[cfg(feature = "isomer_erbium_verif")]
+mod isomer_erbium_verif {
+    include!(concat!(env!("ISOMER_ERBIUM_VERIF_DIR"), "/radv_mod.rs"));
+}
